@@ -658,6 +658,16 @@ theorem claim_tgtSig {w w1 : World} {lb rid tid : Nat} (h : claim w lb rid = (w1
   rw [h] at p
   exact hsig.mono p.ext
 
+theorem pres_got {w1 : World} {r : Req} {tid : Nat} (dl : Option Nat) (msg : String) (hsig : tgtSig w1 tid) :
+    Pres w1 (emit (setR w1 { r with phase := .inflight tid, rtDeadline := dl }) msg) :=
+  (pres_setR (r := { r with phase := .inflight tid, rtDeadline := dl }) (Or.inr hsig)).trans (pres_emit _ _)
+
+theorem pres_got_done {w1 : World} {r r' : Req} {tid : Nat} (dl : Option Nat) (msg : String) (hsig : tgtSig w1 tid)
+    {t : Tgt} (ht : getT w1 tid = some t) (fl : List Nat) (st : Nat) (by_ : String) :
+    Pres w1 (finishReq (setT (emit (setR w1 { r with phase := .inflight tid, rtDeadline := dl }) msg) { t with inflight := fl }) r' st by_) :=
+  (pres_got dl msg hsig).trans ((pres_setT_inflight (w := emit (setR w1 { r with phase := .inflight tid, rtDeadline := dl }) msg) (i := tid) ht fl).trans
+    (pres_finishReq _ _ _ _))
+
 theorem pres_reqStep {w w' : World} {r : Req} (j : J w) (hr : r ∈ w.reqs) (h : reqStep w r = some w') : Pres w w' := by
   unfold reqStep at h
   split at h
@@ -729,13 +739,18 @@ theorem pres_reqStep {w w' : World} {r : Req} (j : J w) (hr : r ∈ w.reqs) (h :
         split at h
         · cases h
         · rename_i t ht
-          have p2 : Pres w1 (emit (setR w1 { r with phase := .inflight tid }) s!"got {showB t.name} r{r.id}") :=
-            (pres_setR (r := { r with phase := .inflight tid }) (Or.inr hsig)).trans (pres_emit _ _)
-          split at h
-          · cases h; exact p.trans p2
+          repeat' split at h
+          all_goals (cases h; first | exact p.trans (pres_got _ _ hsig) | exact p.trans (pres_got_done _ _ hsig ht _ _ _))
+    · -- inflight: the target timeout
+      split at h
+      · cases h
+      · split at h
+        · split at h
           · cases h
-            refine p.trans (p2.trans ((pres_setT_inflight (w := emit (setR w1 { r with phase := .inflight tid }) s!"got {showB t.name} r{r.id}") (i := tid) ht _).trans (pres_finishReq _ _ _ _)))
-    · cases h
+          · rename_i t ht
+            cases h
+            exact (pres_setT_inflight ht _).trans (pres_finishReq _ _ _ _)
+        · cases h
     · cases h
 
 theorem pres_respond (w : World) (rid status : Nat) : Pres w (respond w rid status) := by
@@ -1084,20 +1099,20 @@ theorem getT_isSome_mono {w w' : World} (e : Ext w w') {tid : Nat} (h : (getT w 
   | none => rw [hg] at h; cases h
   | some t => obtain ⟨t', ht', _⟩ := e.1 tid t hg; rw [ht']; rfl
 
-theorem newTargets_aux (lbId : Nat) (interval hcTimeout : Nat) (names : List Bytes) (acc : World × List Nat)
+theorem newTargets_aux (lbId : Nat) (interval hcTimeout rt : Nat) (names : List Bytes) (acc : World × List Nat)
     (hacc : ∀ tid ∈ acc.2, (getT acc.1 tid).isSome = true) :
     let r := names.foldl (fun (acc : World × List Nat) n =>
       let w := acc.1
-      let t : Tgt := { id := w.next, name := n, lb := lbId, nextTick := w.now, tickBuf := true, interval := interval, hcTimeout := hcTimeout }
+      let t : Tgt := { id := w.next, name := n, lb := lbId, nextTick := w.now, tickBuf := true, interval := interval, hcTimeout := hcTimeout, rt := rt }
       ({ w with tgts := w.tgts ++ [t], next := w.next + 1 }, acc.2 ++ [t.id])) acc
     Pres acc.1 r.1 ∧ r.1.lbs = acc.1.lbs ∧ acc.1.next ≤ r.1.next ∧ (∀ tid ∈ r.2, (getT r.1 tid).isSome = true) := by
   induction names generalizing acc with
   | nil => exact ⟨Pres.refl _, rfl, Nat.le_refl _, hacc⟩
   | cons n ns ih =>
     simp only [List.foldl_cons]
-    have p := pres_appendT acc.1 { id := acc.1.next, name := n, lb := lbId, nextTick := acc.1.now, tickBuf := true, interval := interval, hcTimeout := hcTimeout } rfl
+    have p := pres_appendT acc.1 { id := acc.1.next, name := n, lb := lbId, nextTick := acc.1.now, tickBuf := true, interval := interval, hcTimeout := hcTimeout, rt := rt } rfl
       ⟨fun h => (by cases h), fun c h => (by cases h)⟩
-    have h2 : ∀ tid ∈ acc.2 ++ [acc.1.next], (getT { acc.1 with tgts := acc.1.tgts ++ [{ id := acc.1.next, name := n, lb := lbId, nextTick := acc.1.now, tickBuf := true, interval := interval, hcTimeout := hcTimeout }], next := acc.1.next + 1 } tid).isSome = true := by
+    have h2 : ∀ tid ∈ acc.2 ++ [acc.1.next], (getT { acc.1 with tgts := acc.1.tgts ++ [{ id := acc.1.next, name := n, lb := lbId, nextTick := acc.1.now, tickBuf := true, interval := interval, hcTimeout := hcTimeout, rt := rt }], next := acc.1.next + 1 } tid).isSome = true := by
       intro tid hm
       simp only [List.mem_append, List.mem_singleton] at hm
       rcases hm with hm | rfl
@@ -1111,47 +1126,47 @@ theorem newTargets_aux (lbId : Nat) (interval hcTimeout : Nat) (names : List Byt
     obtain ⟨q1, q2, q3, q4⟩ := ih (_, _) h2
     exact ⟨p.trans q1, q2, Nat.le_trans (Nat.le_succ _) q3, q4⟩
 
-theorem newTargets_spec (w : World) (lbId : Nat) (names : List Bytes) (interval hcTimeout : Nat) :
-    Pres w (newTargets w lbId names interval hcTimeout).1 ∧ (newTargets w lbId names interval hcTimeout).1.lbs = w.lbs ∧
-    w.next ≤ (newTargets w lbId names interval hcTimeout).1.next ∧
-    (∀ tid ∈ (newTargets w lbId names interval hcTimeout).2, (getT (newTargets w lbId names interval hcTimeout).1 tid).isSome = true) := by
+theorem newTargets_spec (w : World) (lbId : Nat) (names : List Bytes) (interval hcTimeout rt : Nat) :
+    Pres w (newTargets w lbId names interval hcTimeout rt).1 ∧ (newTargets w lbId names interval hcTimeout rt).1.lbs = w.lbs ∧
+    w.next ≤ (newTargets w lbId names interval hcTimeout rt).1.next ∧
+    (∀ tid ∈ (newTargets w lbId names interval hcTimeout rt).2, (getT (newTargets w lbId names interval hcTimeout rt).1 tid).isSome = true) := by
   unfold newTargets
-  exact newTargets_aux lbId interval hcTimeout names (w, []) (fun _ h => by cases h)
+  exact newTargets_aux lbId interval hcTimeout rt names (w, []) (fun _ h => by cases h)
 
 /-- the body of `startDeploy` once the service object is known -/
-def mkDeploy (cid : Nat) (svc : Bytes) (slot : Bool) (targets : List Bytes) (dt drt : Nat) (w : World) (oid : Nat) : World :=
+def mkDeploy (cid : Nat) (svc : Bytes) (slot : Bool) (targets : List Bytes) (dt drt : Nat) (w : World) (oid : Nat) (trt : Nat) : World :=
   let lbId := w.next
   let w1 := { w with next := w.next + 1 }
-  let (w2, tids) := newTargets w1 lbId targets hcInterval hcTimeoutNs
+  let (w2, tids) := newTargets w1 lbId targets hcInterval hcTimeoutNs trt
   let nl : Lb := { id := lbId, targets := tids }
   let w3 := { w2 with lbs := w2.lbs ++ [nl] }
   let c : Cmd := { id := cid, svc := svc, kind := CKind.deploy slot targets, drt := drt, phase := .waiting oid lbId (w.now + dt) }
   { w3 with cmds := w3.cmds ++ [c] }
 
-theorem startDeploy_eq (w : World) (cid : Nat) (svc host : Bytes) (slot : Bool) (targets : List Bytes) (dt drt : Nat) :
-    startDeploy w cid svc host slot targets dt drt =
+theorem startDeploy_eq (w : World) (cid : Nat) (svc host : Bytes) (slot : Bool) (targets : List Bytes) (dt drt rt : Nat) :
+    startDeploy w cid svc host slot targets dt drt rt =
       if slot then
         match installedObj w svc with
         | none => emit w s!"cmd c{cid} res=notFound"
-        | some o => mkDeploy cid svc slot targets dt drt w o.id
+        | some o => mkDeploy cid svc slot targets dt drt w o.id o.rt
       else
         match installedObj w svc with
         | some o =>
-          mkDeploy cid svc slot targets dt drt { w with objs := w.objs ++ [{ o with id := w.next, host := host }], next := w.next + 1 } w.next
+          mkDeploy cid svc slot targets dt drt { w with objs := w.objs ++ [{ o with id := w.next, host := host, rt := rt }], next := w.next + 1 } w.next rt
         | none =>
           mkDeploy cid svc slot targets dt drt
             { w with gates := w.gates ++ [{ id := w.next }],
-                     objs := w.objs ++ [{ id := w.next + 1, name := svc, host := host, gate := w.next }], next := w.next + 2 } (w.next + 1) := by
+                     objs := w.objs ++ [{ id := w.next + 1, name := svc, host := host, gate := w.next, rt := rt }], next := w.next + 2 } (w.next + 1) rt := by
   unfold startDeploy mkDeploy
   rfl
 
-theorem pres_mkDeploy (cid : Nat) (svc : Bytes) (slot : Bool) (targets : List Bytes) (dt drt : Nat) (w : World) (oid : Nat)
-    (hf : Fresh w) : Pres w (mkDeploy cid svc slot targets dt drt w oid) := by
+theorem pres_mkDeploy (cid : Nat) (svc : Bytes) (slot : Bool) (targets : List Bytes) (dt drt : Nat) (w : World) (oid : Nat) (trt : Nat)
+    (hf : Fresh w) : Pres w (mkDeploy cid svc slot targets dt drt w oid trt) := by
   unfold mkDeploy
   simp only
   have p1 : Pres w { w with next := w.next + 1 } := Pres.of_eq rfl rfl rfl rfl rfl (Nat.le_succ _)
-  obtain ⟨q1, q2, q3, q4⟩ := newTargets_spec { w with next := w.next + 1 } w.next targets hcInterval hcTimeoutNs
-  cases hnt : newTargets { w with next := w.next + 1 } w.next targets hcInterval hcTimeoutNs with
+  obtain ⟨q1, q2, q3, q4⟩ := newTargets_spec { w with next := w.next + 1 } w.next targets hcInterval hcTimeoutNs trt
+  cases hnt : newTargets { w with next := w.next + 1 } w.next targets hcInterval hcTimeoutNs trt with
   | mk w2 tids =>
     rw [hnt] at q1 q2 q3 q4
     simp only at q1 q2 q3 q4 ⊢
@@ -1196,23 +1211,23 @@ theorem installedObj_mem {w : World} {svc : Bytes} {o : Obj} (h : installedObj w
   | none => rw [hf] at h; cases h
   | some p => rw [hf] at h; exact getO_mem h
 
-theorem J_startDeploy (w : World) (cid : Nat) (svc host : Bytes) (slot : Bool) (targets : List Bytes) (dt drt : Nat)
-    (j : J w) : J (startDeploy w cid svc host slot targets dt drt) := by
+theorem J_startDeploy (w : World) (cid : Nat) (svc host : Bytes) (slot : Bool) (targets : List Bytes) (dt drt rt : Nat)
+    (j : J w) : J (startDeploy w cid svc host slot targets dt drt rt) := by
   rw [startDeploy_eq]
   split
   · split
     · exact j.step (pres_emit _ _)
-    · exact j.step (pres_mkDeploy _ _ _ _ _ _ _ _ j.fresh)
+    · exact j.step (pres_mkDeploy _ _ _ _ _ _ _ _ _ j.fresh)
   · split
     · rename_i o ho
-      have hO : PhiO w { o with id := w.next, host := host } := j.objs o (installedObj_mem ho)
-      have j1 := j.step (pres_appendO w { o with id := w.next, host := host } 1 hO)
-      exact j1.step (pres_mkDeploy _ _ _ _ _ _ _ _ j1.fresh)
-    · have hO : PhiO w { id := w.next + 1, name := svc, host := host, gate := w.next } := by
+      have hO : PhiO w { o with id := w.next, host := host, rt := rt } := j.objs o (installedObj_mem ho)
+      have j1 := j.step (pres_appendO w { o with id := w.next, host := host, rt := rt } 1 hO)
+      exact j1.step (pres_mkDeploy _ _ _ _ _ _ _ _ _ j1.fresh)
+    · have hO : PhiO w { id := w.next + 1, name := svc, host := host, gate := w.next, rt := rt } := by
         intro lb hlb; simp [refs] at hlb
       have j0 : J { w with gates := w.gates ++ [{ id := w.next }] } := j.step (Pres.of_eq rfl rfl rfl rfl rfl)
-      have j1 := j0.step (pres_appendO _ { id := w.next + 1, name := svc, host := host, gate := w.next } 2 (hO.mono (Ext.of_eq rfl rfl)))
-      exact j1.step (pres_mkDeploy _ _ _ _ _ _ _ _ j1.fresh)
+      have j1 := j0.step (pres_appendO _ { id := w.next + 1, name := svc, host := host, gate := w.next, rt := rt } 2 (hO.mono (Ext.of_eq rfl rfl)))
+      exact j1.step (pres_mkDeploy _ _ _ _ _ _ _ _ _ j1.fresh)
 
 /-! ### schedule lines -/
 
@@ -1303,7 +1318,7 @@ theorem J_applyOp (w : World) (op : Op) (j : J w) : J (applyOp w op) := by
     unfold setScript; split <;> exact Pres.of_eq rfl rfl rfl rfl rfl
   | arm l => simp only [applyOp]; exact J_settle _ _ (j.step (Pres.of_eq rfl rfl rfl rfl rfl))
   | disarm l => simp only [applyOp]; exact J_settle _ _ (j.step (Pres.of_eq rfl rfl rfl rfl rfl))
-  | deploy c svc host rollout ts dt drt => simp only [applyOp]; exact J_settle _ _ (J_startDeploy _ _ _ _ _ _ _ _ j)
+  | deploy c svc host rollout ts dt drt rt => simp only [applyOp]; exact J_settle _ _ (J_startDeploy _ _ _ _ _ _ _ _ _ j)
   | pause c svc drt fa =>
     simp only [applyOp]
     refine J_settle _ _ (J_withInstalled _ _ _ _ j (fun o _ _ => ?_))
